@@ -20,14 +20,15 @@ func init() { register(&Monitor{ID: "C05", Run: runC05, Self: selfC05}) }
 // prog is the common driver of the program monitors: a model heap bound to real containers, a trace of the
 // calls made so far and the step bookkeeping.
 type prog struct {
-	c      *fw.Ctx
-	r      *rng.R
-	h      *model.Heap
-	trace  []string
-	failed bool
-	op     string
-	lazy   bool // vary the observation route and skip some intermediate observations
-	ctx    bool // issue some of the calls from inside a callback of an iteration over a live container
+	c       *fw.Ctx
+	r       *rng.R
+	h       *model.Heap
+	trace   []string
+	failed  bool
+	op      string
+	lazy    bool // vary the observation route and skip some intermediate observations
+	ctx     bool // issue some of the calls from inside a callback of an iteration over a live container
+	derived bool // some of the lists / objects of the program are derived structures
 }
 
 // insideCallback wraps a call so that it is made by the first callback invocation of an iteration (ForEach, ForEachValue,
@@ -362,7 +363,7 @@ func runC05(c *fw.Ctx) {
 		c.Distinct(p.input())
 	})
 	c.Cases("programs", c.N(1500, 150000), false, func(i int, r *rng.R) {
-		p := &prog{c: c, r: r, h: &model.Heap{}, lazy: i%2 == 1, ctx: i%3 == 0}
+		p := &prog{c: c, r: r, h: &model.Heap{}, lazy: i%2 == 1, ctx: i%3 == 0, derived: i%4 == 1}
 		guard(c, p.input, func() {
 			c05Program(p, steps)
 			p.checkHeap()
@@ -857,6 +858,23 @@ func c05NewList(p *prog) {
 			args[i] = h.Arg(vals[i])
 		}
 		n := h.NewList(nil)
+		if p.derived && r.Chance(1, 4) {
+			// a derived structure (a user type embedding a List, registered with Init) is a List like any other
+			which := r.Intn(3)
+			p.step("NewList", fmt.Sprintf("%s = derived list (embedding level %d) of (%s)", n.Name(), which+1, showVals(vals)), false, func() {
+				n.E = vals
+				switch which {
+				case 0:
+					n.Real = NewDList(args...)
+				case 1:
+					n.Real = NewDDList(args...)
+				default:
+					n.Real = NewDDDList(args...)
+				}
+			})
+			p.c.Count("derived_lists_in_programs")
+			return
+		}
 		p.step("NewList", fmt.Sprintf("%s = NewList(%s)", n.Name(), showVals(vals)), false, func() {
 			n.E = vals
 			n.Real = at.NewList(args...)
